@@ -46,6 +46,9 @@ def run(ctx):
     for d in EXTRACTORS:
         with res.guard("X.check_extractionctx, res, d"):
             X.check_extraction(ctx, res, d)
+    for d in EXTRACTORS:
+        with res.guard(f"X.check_nodes_before_return({d})"):
+            X.check_nodes_before_return(ctx, res, d)
     with res.guard("X.check_subset_orientationctx, res, Hypergraph.subhypergraph"):
         X.check_subset_orientation(ctx, res, "Hypergraph.subhypergraph")
     with res.guard("check_deepcopyctx, res, Hypergraph.copy"):
